@@ -8,6 +8,13 @@
 //! Nondeterminism (select winners, timer, clock) comes from plain globals/hooks set by the harness.
 #![allow(unused, static_mut_refs)]
 use std::pin::Pin;
+macro_rules! global { ($name:ident, $set:ident, $get:ident, $t:ty, $init:expr) => {
+    static mut $name: $t = $init;
+    /// setter/getter live in the defining crate: Kani mis-handles writes to another crate's `static mut`
+    pub fn $set(v: $t) { unsafe { $name = v; } }
+    pub fn $get() -> $t { unsafe { $name } }
+} }
+
 use std::task::{Context, Poll, RawWaker, RawWakerVTable, Waker};
 
 pub fn __noop_waker() -> Waker {
@@ -26,8 +33,9 @@ fn ready<T>(p: Poll<std::io::Result<T>>) -> std::io::Result<T> {
 
 // ---------------------------------------------------------------------------------------------- R2 support
 /// winner of a rewritten `select!` with `n` arms; the harness installs the chooser.
-pub static mut CHOOSE_HOOK: fn(u32) -> u32 = |n| n - 1;
-pub fn __choose(n: u32) -> u32 { let c = unsafe { CHOOSE_HOOK(n) }; if c < n { c } else { n - 1 } }
+fn default_choose(n: u32) -> u32 { n - 1 }
+global!(CHOOSE_HOOK, set_choose_hook, choose_hook, fn(u32) -> u32, default_choose);
+pub fn __choose(n: u32) -> u32 { let c = choose_hook()(n); if c < n { c } else { n - 1 } }
 /// Errors that mean "the environment cancelled this future at a frame boundary" (select! loser).
 pub trait CancelProbe { fn is_cancel(&self) -> bool; }
 pub fn __cancelled<T, E: CancelProbe>(r: &Result<T, E>) -> bool { match r { Err(e) => e.is_cancel(), Ok(_) => false } }
@@ -199,7 +207,7 @@ pub mod io {
 pub mod time {
     pub use std::time::Duration;
     /// model monotonic clock, nanoseconds; the harness advances NOW_NS (non-decreasing)
-    pub static mut NOW_NS: u64 = 0;
+    global!(NOW_NS, set_now_ns, now_ns, u64, 0);
     #[derive(Clone, Copy, Debug, PartialEq, Eq, PartialOrd, Ord, Hash)]
     pub struct Instant(pub u64);
     impl Instant {
@@ -216,9 +224,9 @@ pub mod time {
     #[derive(Debug)]
     pub struct Interval { pub period: Duration, pub behavior: MissedTickBehavior, pub ticks: u32 }
     /// log of the last interval created / configured (C07 reads it)
-    pub static mut LAST_INTERVAL_PERIOD_NS: u128 = 0;
-    pub static mut LAST_INTERVAL_SKIP: bool = false;
-    pub static mut TICKS_TAKEN: u32 = 0;
+    global!(LAST_INTERVAL_PERIOD_NS, set_last_interval_period_ns, last_interval_period_ns, u128, 0);
+    global!(LAST_INTERVAL_SKIP, set_last_interval_skip, last_interval_skip, bool, false);
+    global!(TICKS_TAKEN, set_ticks_taken, ticks_taken, u32, 0);
     pub fn interval(period: Duration) -> Interval {
         assert!(period > Duration::ZERO, "`period` must be non-zero.");
         unsafe { LAST_INTERVAL_PERIOD_NS = period.as_nanos(); LAST_INTERVAL_SKIP = false; }
@@ -234,10 +242,10 @@ pub mod time {
     impl std::fmt::Display for Elapsed { fn fmt(&self, f: &mut std::fmt::Formatter<'_>) -> std::fmt::Result { f.write_str("deadline has elapsed") } }
     impl std::error::Error for Elapsed {}
     /// log of `timeout` calls (C14): duration of the last call, number of calls
-    pub static mut TIMEOUT_LAST_NS: u128 = 0;
-    pub static mut TIMEOUT_CALLS: u32 = 0;
+    global!(TIMEOUT_LAST_NS, set_timeout_last_ns, timeout_last_ns, u128, 0);
+    global!(TIMEOUT_CALLS, set_timeout_calls, timeout_calls, u32, 0);
     /// hook: does the deadline fire? (erased futures have already run to completion when we get here)
-    pub static mut TIMEOUT_FIRES: bool = false;
+    global!(TIMEOUT_FIRES, set_timeout_fires, timeout_fires, bool, false);
     pub fn timeout<T>(d: Duration, value: T) -> Result<T, Elapsed> {
         unsafe { TIMEOUT_LAST_NS = d.as_nanos(); TIMEOUT_CALLS += 1; if TIMEOUT_FIRES { return Err(Elapsed); } }
         Ok(value)
@@ -254,13 +262,13 @@ pub mod net {
     pub const NET_OUT: usize = 64;
     /// Scripted socket: reads deliver `input[..in_len]` then EOF; writes are logged; shutdown is counted.
     /// State lives in globals so harnesses can inspect it after the stream was moved into a task.
-    pub static mut INPUT: [u8; NET_IN] = [0; NET_IN];
-    pub static mut IN_LEN: usize = 0;
-    pub static mut IN_POS: usize = 0;
-    pub static mut OUTPUT: [u8; NET_OUT] = [0; NET_OUT];
-    pub static mut OUT_LEN: usize = 0;
-    pub static mut SHUTDOWNS: u32 = 0;
-    pub static mut READ_CALLS: u32 = 0;
+    global!(INPUT, set_input, input, [u8; NET_IN], [0; NET_IN]);
+    global!(IN_LEN, set_in_len, in_len, usize, 0);
+    global!(IN_POS, set_in_pos, in_pos, usize, 0);
+    global!(OUTPUT, set_output, output, [u8; NET_OUT], [0; NET_OUT]);
+    global!(OUT_LEN, set_out_len, out_len, usize, 0);
+    global!(SHUTDOWNS, set_shutdowns, shutdowns, u32, 0);
+    global!(READ_CALLS, set_read_calls, read_calls, u32, 0);
     #[derive(Debug)]
     pub struct TcpStream { pub id: u32 }
     impl AsyncRead for TcpStream {
@@ -284,11 +292,12 @@ pub mod net {
     impl<T> ToSocketAddrs for T {}
     pub struct TcpListener;
     /// hook: next accepted connection (None = accept error)
-    pub static mut ACCEPT_HOOK: fn() -> Option<(TcpStream, SocketAddr)> = || None;
+    fn default_accept() -> Option<(TcpStream, SocketAddr)> { None }
+    global!(ACCEPT_HOOK, set_accept_hook, accept_hook, fn() -> Option<(TcpStream, SocketAddr)>, default_accept);
     impl TcpListener {
         pub fn bind<A: ToSocketAddrs>(_a: A) -> Result<TcpListener> { Ok(TcpListener) }
         pub fn accept(&self) -> Result<(TcpStream, SocketAddr)> {
-            match unsafe { ACCEPT_HOOK() } { Some(x) => Ok(x), None => Err(std::io::Error::from(std::io::ErrorKind::ConnectionAborted)) }
+            match accept_hook()() { Some(x) => Ok(x), None => Err(std::io::Error::from(std::io::ErrorKind::ConnectionAborted)) }
         }
     }
 }
@@ -307,5 +316,5 @@ pub mod sync {
 }
 
 /// `tokio::spawn(task)`: the erased task has already run inline when we get here.
-pub static mut SPAWNS: u32 = 0;
+global!(SPAWNS, set_spawns, spawns, u32, 0);
 pub fn spawn<T>(v: T) -> T { unsafe { SPAWNS += 1; } v }
